@@ -291,6 +291,7 @@ func genInput(kind string, n int) string {
 }
 
 var sweepPrevSQL string
+var sweepTick int
 var sweepDisturbers = []string{"\t\t'abc", "SELECT a,\n  b\nFROM t\nWHERE x = 'y'\n\n\n", "SELECT 1;\n\n\t\tSELECT \"q", "/* c */ SELECT\n\n\n\n\n\n\n\n'x"}
 
 func errSweepOne(id, sql, class string, big bool, reps int) sweepOut {
@@ -331,12 +332,13 @@ func errSweepOne(id, sql, class string, big bool, reps int) sweepOut {
 		var pan string
 		for r := 0; r < reps; r++ {
 			var es []error
-			if r > 0 {
+			if r == 1 {
 				// between the repeated calls the same entry point runs on other inputs: pooled tokenizers and
 				// parsers then carry another input's history into the repeat ("the same input always produces the
 				// same code, message and location" must hold on warm pools too)
-				d := sweepDisturbers[(r-1)%len(sweepDisturbers)]
-				if r == 1 && sweepPrevSQL != "" {
+				sweepTick++
+				d := sweepDisturbers[sweepTick%len(sweepDisturbers)]
+				if sweepTick%2 == 0 && sweepPrevSQL != "" {
 					d = sweepPrevSQL
 				}
 				guarded(func() { ep.run(d) })
